@@ -24,6 +24,10 @@ from .model import norm
 _BUILTIN_TYPES = {t.__name__: t for t in (bool, int, float, complex, str, bytes, bytearray, tuple, list, dict, set, frozenset, object, type)}
 
 
+class _OpaqueIter(Exception):
+    pass
+
+
 class Unsupported(Exception):
     def __init__(self, node: ast.AST, why: str = "") -> None:
         super().__init__(f"line {getattr(node, 'lineno', '?')}: unsupported form `{norm(node)[:80]}` {why}")
@@ -635,7 +639,7 @@ class Interp:
             g = gens[i]
             it = self.ev(g.iter)
             if isinstance(it, Opaque):
-                return
+                raise _OpaqueIter()
             if isinstance(it, dict):
                 it = list(it)
             if isinstance(it, type) and issubclass(it, __import__("enum").Enum):
@@ -649,14 +653,19 @@ class Interp:
         targets = {n.id for g in gens for n in ast.walk(g.target) if isinstance(n, ast.Name)}
         missing = object()
         saved = {t: self.env.get(t, missing) for t in targets}
+        opaque = False
         try:
             rec(0)
+        except _OpaqueIter:
+            opaque = True  # what is built from an opaque iterable is opaque (not: empty)
         finally:
             for t, v in saved.items():
                 if v is missing:
                     self.env.pop(t, None)
                 else:
                     self.env[t] = v
+        if opaque:
+            return Opaque("comprehension")
         if isinstance(e, ast.DictComp):
             return dict(results)
         if isinstance(e, ast.SetComp):
@@ -704,6 +713,8 @@ class Interp:
                             raise PyRaise("ValueError", None)
                     return {"len": len, "set": set, "list": list, "tuple": tuple, "bool": self.truth, "dict": dict, "frozenset": frozenset}[nm](*args)
                 except (TypeError, ValueError):
+                    if nm == "len" and len(args) == 1 and not isinstance(args[0], (Obj, Sym, Opaque)):
+                        raise PyRaise("TypeError", None)  # len() of a concrete object without __len__
                     raise Unsupported(e, "(builtin on a model value)")
             if (nm in self.env and (callable(self.env[nm]) or isinstance(self.env[nm], Obj))) or (nm not in self.env and nm in self.globals and (callable(self.globals[nm]) or isinstance(self.globals[nm], Obj))):
                 target = self.env[nm] if nm in self.env else self.globals[nm]
@@ -780,6 +791,18 @@ class Interp:
                         raise Unsupported(e, "(defaultdict initialiser)")
                     dd.update(init)
                 return dd
+            if nm == "map" and len(e.args) == 2 and isinstance(e.args[0], ast.Name) and nm not in self.env:
+                xs = self.ev(e.args[1])
+                if isinstance(xs, Opaque):
+                    return Opaque("map")
+                out = []
+                for x in list(xs):
+                    self.env["__map_arg__"] = x
+                    call = ast.copy_location(ast.Call(func=e.args[0], args=[ast.Name(id="__map_arg__", ctx=ast.Load())], keywords=[]), e)
+                    ast.fix_missing_locations(call)
+                    out.append(self.call(call))
+                self.env.pop("__map_arg__", None)
+                return out
             if nm == "isinstance" and len(e.args) == 2:
                 v0 = self.ev(e.args[0])
                 classes0 = e.args[1].elts if isinstance(e.args[1], ast.Tuple) else [e.args[1]]
@@ -788,7 +811,7 @@ class Interp:
                     return any(isinstance(v0, native[norm(c)]) for c in classes0)
                 if isinstance(v0, (Sym, Obj)) and all(norm(c) in native for c in classes0):
                     return False  # a model object is never an instance of a builtin container / scalar class
-            if nm == "isinstance" and len(e.args) == 2 and not isinstance(e.args[1], ast.Name):
+            if nm == "isinstance" and len(e.args) == 2 and (not isinstance(e.args[1], ast.Name) or isinstance(self.globals.get(e.args[1].id), (type, tuple))):
                 v0 = self.ev(e.args[0])
                 if not isinstance(v0, (Obj, Opaque, Sym)):
                     try:
